@@ -125,6 +125,9 @@ func c10API(ctx *core.Ctx, idx int) core.Result {
 				how = fmt.Sprintf("(%s)%s(%s)", a.how, ops, b.how)
 			case 0, 1: // concatenation
 				b, _ := pick(k)
+				if len(a.shadow.S)+len(b.shadow.S) > 1<<16 || len(a.shadow.A)+len(b.shadow.A) > 1<<12 {
+					continue // (repeated self-concatenation doubles; keep the histories small)
+				}
 				got, err = a.real.Arith(bytecode.ADD, b.real)
 				want = val.Binary("+", a.shadow, b.shadow)
 				how = fmt.Sprintf("(%s)+(%s)", a.how, b.how)
